@@ -216,6 +216,8 @@ struct NetCase {
     /// register every service through add_optional_service(Some(..)) and insert one absent
     /// optional service (None) after this many registrations (must not disturb the others)
     optional_none_after: Option<usize>,
+    /// build a `Routes` first (RoutesBuilder) and hand it to Server::add_routes
+    via_add_routes: bool,
 }
 
 macro_rules! router_add {
@@ -272,6 +274,13 @@ fn net_body(c: &NetCase, _ch: &Chooser) -> Outcome {
             if c.optional_none_after == Some(k + 2) {
                 router = router.add_optional_service(None::<route_x_a_Sv::sv_server::SvServer<H>>);
             }
+        }
+        if c.via_add_routes {
+            let mut routes = Routes::default();
+            for s in &c.order {
+                routes = add(routes, *s, Wrap::Plain, &log);
+            }
+            router = tonic::transport::Server::builder().add_routes(routes);
         }
         tokio::spawn(async move {
             let _ = router.serve_with_incoming(vnet::incoming(rx)).await;
@@ -399,27 +408,28 @@ pub fn property(tier: Tier) -> Property {
     for a in 0..5usize {
         for b in 0..5usize {
             if a != b {
-                ncases.push(NetCase { order: vec![a, b], chop: (a + b) % 3 * 2 % 5, optional_none_after: None });
+                ncases.push(NetCase { order: vec![a, b], chop: (a + b) % 3 * 2 % 5, optional_none_after: None, via_add_routes: false });
                 if b == (a + 1) % 5 {
                     for pos in [1usize, 2] {
-                        ncases.push(NetCase { order: vec![a, b], chop: 0, optional_none_after: Some(pos) });
+                        ncases.push(NetCase { order: vec![a, b], chop: 0, optional_none_after: Some(pos), via_add_routes: false });
                     }
                 }
             }
         }
-        ncases.push(NetCase { order: vec![a], chop: 0, optional_none_after: None });
+        ncases.push(NetCase { order: vec![a], chop: 0, optional_none_after: None, via_add_routes: false });
+        ncases.push(NetCase { order: vec![a, (a + 2) % 5, (a + 3) % 5], chop: 0, optional_none_after: None, via_add_routes: true });
     }
     if tier == Tier::Thorough {
-        ncases.push(NetCase { order: vec![0, 1, 2, 3, 4], chop: 2, optional_none_after: None });
-        ncases.push(NetCase { order: vec![0, 1, 2, 3], chop: 0, optional_none_after: Some(3) });
-        ncases.push(NetCase { order: vec![4, 3, 2, 1, 0], chop: 3, optional_none_after: None });
+        ncases.push(NetCase { order: vec![0, 1, 2, 3, 4], chop: 2, optional_none_after: None, via_add_routes: false });
+        ncases.push(NetCase { order: vec![0, 1, 2, 3], chop: 0, optional_none_after: Some(3), via_add_routes: false });
+        ncases.push(NetCase { order: vec![4, 3, 2, 1, 0], chop: 3, optional_none_after: None, via_add_routes: false });
     }
     let net = Section::new(
         "server-transport",
         Config { hang_secs: 120, ..Default::default() },
         "cases: every ordered pair (and every single one; thorough also all five in both orders) of the fixture services registered through Server::builder().add_service(..) (and, for consecutive pairs, through add_optional_service(Some(..)) with one absent optional service — None — inserted in the middle or at the end) and served by the real transport server over an in-memory pipe in virtual time; a bare hyper HTTP/2 client sends every path of the mutation menu on one connection (one execution = ~1000 requests); same RefRouter oracle. All cases count as non-trivial.",
         ncases,
-        |c: &NetCase| format!("order={:?} chop={} optional_none_after={:?}", c.order.iter().map(|s| SERVICES[*s]).collect::<Vec<_>>(), c.chop, c.optional_none_after),
+        |c: &NetCase| format!("order={:?} chop={} optional_none_after={:?} via_add_routes={}", c.order.iter().map(|s| SERVICES[*s]).collect::<Vec<_>>(), c.chop, c.optional_none_after, c.via_add_routes),
         net_body,
     )
     .mins(20, 5, 20);
